@@ -21,6 +21,7 @@ def handle (j : Json) : Except String Json := do
   | "hoist" => Driver.hoist j
   | "ft_op" => Driver.ftOp j
   | "ft_fiber" => Driver.ftFiber j
+  | "ft_project" => Driver.ftProject j
   | "nest" => Driver.nest j
   | "legality" => Driver.legality j
   | "parse_spec" => Driver.parseSpec j
